@@ -382,6 +382,15 @@ func maxLogN() int {
 	return 7
 }
 
+// genLogN draws the ring degree: 2^4..2^7 (quick) / 2^8 (thorough); in the thorough tier one case in sixteen uses a
+// larger ring (up to 2^big) so that the encrypted operations are also exercised above 2^8.
+func genLogN(t *rapid.T, big int) int {
+	if h.Thorough() && big > maxLogN() && rapid.IntRange(0, 15).Draw(t, "bigRing") == 0 {
+		return rapid.IntRange(maxLogN()+1, big).Draw(t, "logNBig")
+	}
+	return rapid.IntRange(4, maxLogN()).Draw(t, "logN")
+}
+
 func fmtU(v []uint64, max int) string {
 	if len(v) > max {
 		return fmt.Sprintf("%v...", v[:max])
